@@ -316,6 +316,19 @@ def run(ctx):
     for i in range(n):
         w = rng.randint(1, 5)
         specs = vlib.rand_gate_list(rng, w, rng.randint(1, 14), NAMES)
+        if w >= 3 and rng.random() < 0.2:
+            # rotations on the same target whose control lists differ: a multi-controlled rotation next to the same
+            # rotation with fewer / other / exchanged controls (nothing may be merged or cancelled between them)
+            nm = rng.choice(["CRX", "CRY", "CRZ", "CPHASE"])
+            t, c1, c2 = rng.sample(range(w), 3)
+            pair = [vlib.gspec(nm, [t], [c1, c2], vlib.rand_ang(rng)), vlib.gspec(nm, [t], rng.choice([[c1], [c2], [c2, c1], [c1, c2]]), vlib.rand_ang(rng))]
+            if rng.random() < 0.3:
+                pair[1] = vlib.gspec(nm, [c1], [t, c2], pair[1]["p"])
+            if rng.random() < 0.5:
+                pair.reverse()
+            pos = rng.randint(0, len(specs))
+            specs = specs[:pos] + pair + specs[pos:]
+            ctx.count("pattern:same-target-different-controls")
         fixed = rng.choice([None, None, w, w + 1])
         thr = rng.choice([1e-3, 1e-3, 0.01, 0.3])
         ch = oracle_case(ctx, specs, fixed, thr, rng)
